@@ -16,6 +16,7 @@ import (
 	"image/jpeg"
 	"math"
 	"os"
+	"regexp"
 	"sort"
 	"strings"
 	"unicode/utf16"
@@ -468,6 +469,8 @@ func checkTextField(f *findings, class, where string, obj pdfread.Object, presen
 
 const ptPerMm = 72 / 25.4
 
+var reOperator = regexp.MustCompile(`^operator #\d+ "([^"]*)" at offset`)
+
 func validate(data []byte, m model, r *fw.R) (list []finding, key [20]byte) {
 	f := &findings{}
 	key = sha1.Sum(maskDate(data)) // replaced by the structural key once the file parses
@@ -541,6 +544,12 @@ func validate(data []byte, m model, r *fw.R) (list []finding, key [20]byte) {
 		}
 		if len(fs) == 0 {
 			r.Outcome("filter:none")
+		}
+		if !st.LengthOK {
+			// already reported as stream-length; where the data ends is then a guess, so a
+			// filter error would be a consequence, not a second defect
+			r.Outcome("stream-filter-skipped:length-wrong")
+			continue
 		}
 		dc, _ := decodeStream(st)
 		if dc.err != "" {
@@ -620,7 +629,14 @@ func validate(data []byte, m model, r *fw.R) (list []finding, key [20]byte) {
 			f.add("content-syntax", "%s: %v", where, err)
 		}
 		for _, p := range pdfread.ValidateContent(ops) {
-			f.add(p.Class, "%s: %s", where, p.Detail)
+			class := p.Class
+			if class == "content-operator-invalid" {
+				// one class per offending keyword: S* and, say, NaN have different causes
+				if m := reOperator.FindStringSubmatch(p.Detail); m != nil {
+					class += ":" + m[1]
+				}
+			}
+			f.add(class, "%s: %s", where, p.Detail)
 		}
 		// resources
 		for _, u := range pdfread.UsedResources(ops) {
@@ -898,6 +914,25 @@ func stateText(d *pdfread.Doc, dec map[int]decoded) []byte {
 
 var seenDocs = map[[20]byte]struct{}{}
 
+// record passes a violation to the framework, but only the first few of each class per worker
+// (they are the simplest ones: the enumeration is simplest-first). The framework keeps at most
+// 200 violations per worker; tens of thousands of cases of one known root cause must not be
+// able to push the first case of a new class out of that window. Every violation is still
+// counted in the outcome tallies ("violation:<class>") and in the counter below.
+var recorded = map[string]int{}
+
+const perClass = 8
+
+func record(r *fw.R, class, detail string) {
+	r.Count("violations_total", 1)
+	if recorded[class] < perClass {
+		recorded[class]++
+		r.Violate(class, detail)
+		return
+	}
+	r.Count("violations_not_passed_to_framework(class already has "+fmt.Sprint(perClass)+" in this worker)", 1)
+}
+
 // maskDate blanks the one field that depends on the wall clock.
 func maskDate(b []byte) []byte {
 	k := bytes.Index(b, []byte("/CreationDate("))
@@ -942,7 +977,7 @@ func family(name string, alpha []action, depth int, opts []options) fw.Family {
 			if pan != "" {
 				// no document: the writer panicked; one class per panic message
 				r.Outcome("violation:panic")
-				r.Violate("panic: "+pan, "the writer panicked instead of producing a document: "+pan)
+				record(r, "panic: "+pan, "the writer panicked instead of producing a document: "+pan)
 				return
 			}
 			fs, h := validate(data, m, r)
@@ -960,7 +995,7 @@ func family(name string, alpha []action, depth int, opts []options) fw.Family {
 			}
 			for _, v := range fs {
 				r.Outcome("violation:" + v.class)
-				r.Violate(v.class, v.detail)
+				record(r, v.class, v.detail)
 			}
 		},
 	}
